@@ -40,7 +40,11 @@ def ncases(tier):
 
 
 def run_case(ctx, i, rng):
-    feat = wfgen.Features(min_final=3, max_final=6, max_tasks=5)
+    # (sometimes more than nine cycles: points of different widths)
+    wide = rng.random() < 0.25
+    feat = wfgen.Features(min_final=10 if wide else 3,
+                          max_final=12 if wide else 6,
+                          max_tasks=4 if wide else 5)
     gt = wfgen.gen_workflow(rng, feat)
     case = runner.build_case(rng, gt, 'all-complete', hostile=0.3)
     inst = [(n, p) for n in gt['names'] for p in wfgen.task_points(gt, n)]
@@ -55,6 +59,13 @@ def run_case(ctx, i, rng):
         k = rng.randint(1, 3)
         seeds = sorted({f'{p}/{n}' for n, p in rng.sample(inst, min(
             k, len(inst)))})
+        if wide and k >= 2:
+            # start tasks on both sides of the one/two-digit boundary
+            lo = [x for x in inst if x[1] < 10]
+            hi = [x for x in inst if x[1] >= 10]
+            if lo and hi:
+                seeds = sorted({'%d/%s' % (p, n) for n, p in (
+                    rng.choice(lo), rng.choice(hi))})
         start = min(int(s.split('/')[0]) for s in seeds)
         case['options'] = {'starttask': seeds}
         case['start_point'] = start
